@@ -6,17 +6,7 @@ from pyvc.stmts import AnyException
 MG = ContractSet()
 
 
-def shapes():
-    import skepticoin.networking.local_peer as lp      # first: the repository's modules import each other in a cycle
-    import skepticoin.networking.manager as m
-    import skepticoin.networking.disk_interface as di
-    disk = StateShape(di.DiskInterface)
-    local_peer = StateShape(lp.LocalPeer, logger=('const', ('logger',)), disk_interface=disk)
-    chain_manager = StateShape(
-        m.ChainManager, local_peer=local_peer, lock=('const', ('lock',)), coinstate=CLS('CoinState'),
-        transaction_pool=('mutable', 'list', LIST(CLS('Transaction'))),
-        last_known_valid_coinstate=OPT(CLS('CoinState')), started_at=INT)
-    return dict(disk=disk, local_peer=local_peer, chain_manager=chain_manager)
+from .state import shapes
 
 
 # Inv-pool: every pending transaction passed the stand-alone rules and is valid in the ledger state of the current head;
@@ -66,6 +56,8 @@ def _(c):
         " for j in range(len(pool0)))",
         "all(G.member(self.transaction_pool[k], pool0) for k in range(len(self.transaction_pool)))")
     c.always("same(self.coinstate, cs0)")
+    c.on_raise("same(self.transaction_pool, pool0)")
+    c.raises_only_if("(not cs0.current_chain_hash) or not all(G.tx_in_state(pool0[j], cs0.current_chain_hash, cs0) for j in range(len(pool0)))")
     c.modifies("self.transaction_pool")
 
 
@@ -84,4 +76,7 @@ def _(c):
         "all(G.member(self.transaction_pool[k], pool0) for k in range(len(self.transaction_pool)))",
         "implies(validated, self.last_known_valid_coinstate is not None and same(self.last_known_valid_coinstate, coinstate))",
         "implies(not validated, same(self.last_known_valid_coinstate, old(self.last_known_valid_coinstate)))")
+    c.on_raise("same(self.coinstate, coinstate)", "same(self.transaction_pool, pool0)",
+               "same(self.last_known_valid_coinstate, old(self.last_known_valid_coinstate))")
+    c.raises_only_if("(not coinstate.current_chain_hash) or not all(G.tx_in_state(pool0[j], coinstate.current_chain_hash, coinstate) for j in range(len(pool0)))")
     c.modifies("self.coinstate", "self.transaction_pool", "self.last_known_valid_coinstate")
